@@ -1,6 +1,6 @@
 From Coq Require Import ZArith List Bool.
 Import ListNotations.
-From GV Require Import Common.PyInt gen.Gen_array C04.Model C04.Lemmas.
+From GV Require Import Common.PyInt gen.Gen_array C04.Model C04.Lemmas C04.Discharge.
 Open Scope Z_scope.
 
 (* SliceSubsetState.to_mask(data, view) = SliceSubsetState.to_mask(data)[view], pointwise and with the same shape,
@@ -67,3 +67,31 @@ Theorem indexed_view :
       to_under (sel_of pshape (indices_view indices)) (to_under (sel_of (reduced_shape pshape indices) view) j).
 Proof. exact Lemmas.indexed_view. Qed.
 Print Assumptions indexed_view.
+
+(* The combine_slices premise of slice_state_view / slice_state_full is discharged by C20's proof over the translated
+   code (C20.CombineProof.combine_core, via C04.Discharge): the premise itself, and the two theorems without it. *)
+Theorem combine_slices_premise_holds :
+  forall v s n r, 0 <= n -> pos_step v -> pos_step s ->
+    combine_slices v s n = Ok r ->
+    forall k, 0 <= k < zlen (slice_elems v n) ->
+      mem k (slice_elems (mk_slice3 r) (zlen (slice_elems v n))) = mem (nth (Z.to_nat k) (slice_elems v n) 0) (slice_elems s n).
+Proof. exact Discharge.combine_slices_premise_holds. Qed.
+Print Assumptions combine_slices_premise_holds.
+
+Theorem slice_state_view_closed :
+  forall shape slices view sh m,
+    Forall (fun n => 0 <= n) shape -> Forall pos_step slices -> view_pos_steps view ->
+    view_ok shape view = true ->
+    slice_state_mask shape slices view = Ok (sh, m) ->
+    sh = sel_shape (sel_of shape view) /\
+    forall j, in_box sh j -> m j = slices_full_mask shape slices (to_under (sel_of shape view) j).
+Proof. exact Discharge.slice_state_view_closed. Qed.
+Print Assumptions slice_state_view_closed.
+
+Theorem slice_state_full_closed :
+  forall shape slices sh m,
+    Forall (fun n => 0 <= n) shape -> Forall pos_step slices ->
+    slice_state_mask shape slices [] = Ok (sh, m) ->
+    sh = shape /\ forall j, in_box shape j -> m j = slices_full_mask shape slices j.
+Proof. exact Discharge.slice_state_full_closed. Qed.
+Print Assumptions slice_state_full_closed.
